@@ -13,7 +13,7 @@ from hypothesis import strategies as st
 from vlib import rngctl  # noqa: F401
 from vlib import samplers as S
 from vlib.targets import Target
-from vlib.core import Sub, Violation
+from vlib.core import Sub, Violation, Inconclusive
 
 RULE = ("histories of take_step / advance(m) / exchange (replace_last + re-tempered probability, as the tempering worker does) / "
         "clone-from-the-same-input-arrays / step-the-clone over every sampler class, temperatures 0.3..50, bounds and Gibbs limits; "
@@ -135,6 +135,7 @@ def body_history(case, ctx):
     clone = None
     stepped_main = stepped_clone = False
     moved = False
+    outside_installed = False      # an exchange has put the current point outside the chain's own bounds
     for k, op in enumerate(cfg["ops"]):
         label = f"after op {k} {op}"
         with warnings.catch_warnings():
@@ -144,7 +145,16 @@ def body_history(case, ctx):
                     if cls == "ensemble":
                         ch.advance(1)
                     else:
-                        ch.take_step()
+                        try:
+                            ch.take_step()
+                        except ValueError as e:
+                            # HamiltonianChain's documented refusal ("Failed to take step within maximum allowed attempts"): from a point
+                            # outside its bounds the first fold of every trajectory is a jump whose energy change no step size removes.
+                            # The property is about what is stored, and nothing is; the case ends here (seen at VERIF_SEED=7)
+                            if cls == "hmc" and outside_installed and "Failed to take step" in str(e):
+                                raise Inconclusive("HamiltonianChain refuses to move from an installed point outside its bounds")
+                            raise
+                        outside_installed = False
                         # the caller looks at the current point and goes on computing with the array it got
                         if hasattr(ch, "get_last"):
                             cur = ch.get_last()
@@ -152,7 +162,14 @@ def body_history(case, ctx):
                                 cur += 10.0
                     stepped_main = True
                 elif op["op"] == "advance":
-                    ch.advance(op["m"])
+                    try:
+                        ch.advance(op["m"])
+                    except ValueError as e:
+                        if cls == "hmc" and outside_installed and "Failed to take step" in str(e):      # (as for a single step)
+                            raise Inconclusive("HamiltonianChain refuses to move from an installed point outside its bounds")
+                        raise
+                    if op["m"] > 0:
+                        outside_installed = False
                     stepped_main = stepped_main or op["m"] > 0
                 elif op["op"] == "exchange":
                     c, s = S.centre_scale(cfg)
@@ -160,6 +177,7 @@ def body_history(case, ctx):
                     box = S.box_of(cfg)
                     if box is not None and not op.get("keep_outside"):
                         pos = np.clip(pos, box[0], box[1])
+                    outside_installed = box is not None and bool(np.any((pos < box[0]) | (pos > box[1])))
                     for i, kind in enumerate(cfg.get("limits", [])):
                         kind = S.limit_kind(cfg, i)
                         if kind == "nonneg":
